@@ -9,6 +9,7 @@ package sem
 import (
 	"encoding/json"
 	"fmt"
+	"regexp"
 	"sort"
 	"strings"
 
@@ -189,7 +190,67 @@ func Of(nf *cfgnorm.NF, u Universe) *Behaviour {
 		b.Fronts = append(b.Fronts, fo)
 	}
 	sort.Slice(b.Fronts, func(i, j int) bool { return b.Fronts[i].Name < b.Fronts[j].Name })
+	canonicalise(b)
 	return b
+}
+
+var authBackRe = regexp.MustCompile(`_auth_backend[0-9]+_[0-9]+`)
+var pathIDRe = regexp.MustCompile(`\bpath[0-9]+\b`)
+
+// canonicalise erases two kinds of internal numbering that are not behaviour:
+// `_auth_backendNNN_port` names (numbered in processing order) are renamed after the
+// servers and rules of that backend, and path ids (`pathNN`, numbered in the order the
+// paths were added to a backend) are masked in route details and variables (backend rules
+// already have them resolved by cfgnorm).
+func canonicalise(b *Behaviour) {
+	names := map[string]string{}
+	for _, be := range b.Backends {
+		if authBackRe.FindString(be.Name) == be.Name {
+			rules := authBackRe.ReplaceAllString(strings.Join(be.Rules, ";"), "_auth_backend")
+			names[be.Name] = "_auth_backend{" + strings.Join(be.Servers, ",") + "|" + rules + "}"
+		}
+	}
+	ren := func(s string) string {
+		if len(names) == 0 {
+			return s
+		}
+		return authBackRe.ReplaceAllStringFunc(s, func(x string) string {
+			if n, ok := names[x]; ok {
+				return n
+			}
+			return x
+		})
+	}
+	for i := range b.Routes {
+		r := &b.Routes[i]
+		r.Backend = ren(r.Backend)
+		r.Detail = pathIDRe.ReplaceAllString(ren(r.Detail), "path##")
+		for k, v := range r.Vars {
+			if k == "txn.pathID" {
+				r.Vars[k] = "path##"
+			} else {
+				r.Vars[k] = ren(v)
+			}
+		}
+	}
+	for i := range b.Backends {
+		be := &b.Backends[i]
+		be.Name = ren(be.Name)
+		for j := range be.Rules {
+			be.Rules[j] = ren(be.Rules[j])
+		}
+	}
+	sort.SliceStable(b.Backends, func(i, j int) bool { return b.Backends[i].Name < b.Backends[j].Name })
+	for i := range b.Fronts {
+		f := &b.Fronts[i]
+		f.DefaultBackend = ren(f.DefaultBackend)
+		for j := range f.Rules {
+			f.Rules[j] = ren(f.Rules[j])
+		}
+		for j := range f.UseBackends {
+			f.UseBackends[j] = ren(f.UseBackends[j])
+		}
+	}
 }
 
 // JSON renders a behaviour deterministically.
